@@ -835,8 +835,10 @@ def stream_e2e(fl, drv, capy, tier, hist):
                     v.failing("wrong-arm-or-payload:unexplained", payload)
 
     for b, (src, refs), res in zip(batches, progs, results):
-        if res.get("build_failed"):
-            # find the culprit(s): compile every case of the batch on its own
+        if res.get("build_failed") or res.get("rc", 0) != 0:
+            # the batch does not build or dies at run time: find the culprit(s) by running every case on its own
+            key = "e2e_batches_not_built" if res.get("build_failed") else "e2e_batches_died_at_run_time_rerun_case_by_case"
+            v.coverage[key] = v.coverage.get(key, 0) + 1
             singles = [e2e_program([(c, 0)]) for c, _ in b]
             sres = C.parallel_map(build_and_run, [(capy, s[0]) for s in singles])
             for (c, m), (ssrc, srefs), sr in zip(b, singles, sres):
@@ -851,7 +853,8 @@ def stream_e2e(fl, drv, capy, tier, hist):
                 else:
                     if len(members(c["sum"])) >= 2:
                         nontriv.add(C.sha(model_line(c)))
-                    judge(c, m, 0, sr["stdout"].split("|")[0], srefs[0], lambda s=ssrc: s)
+                    judge(c, m, 0, sr["stdout"].split("|")[0], srefs[0],
+                          lambda s=ssrc, rc=sr.get("rc"): "// exit status %s\n%s" % (rc, s))
             continue
         texts = res["stdout"].split("|")
         for k, (c, m) in enumerate(b):
@@ -903,6 +906,57 @@ def stream_e2e(fl, drv, capy, tier, hist):
 
 
 def replay(path):
+    """Re-run the failing input of a replay file on the current tree: front-end cases through the harness,
+    end-to-end cases through capy; the extracted model/specification are re-evaluated too."""
+    from .. import cargotools, coqtools
     r = json.load(open(path))
-    print(json.dumps(r, indent=1)[:6000])
+    print(json.dumps({k: r[k] for k in r if k != "source"}, indent=1)[:4000])
+    c = r.get("case")
+    if not c:
+        return 0
+    c["arms"] = [tuple(a) for a in c["arms"]]
+    if c["sum"]["kind"] == "enum":
+        c["sum"]["variants"] = [tuple(x) for x in c["sum"]["variants"]]
+    ok, _, drv = coqtools.build_driver("C11")
+    if not ok:
+        print("model driver does not build")
+        return 1
+    m = parse_kv(C.run_lines([drv], [model_line(c)], indexed=False)[0])
+    print("model/spec now:", m)
+    discr = [int(x) for x in m["discr"].split(",")] if m.get("discr", "-") != "-" else None
+    if r.get("stream") == "front-end":
+        ok, _, har = cargotools.build_harness("h_c11")
+        if not ok:
+            print("harness does not build")
+            return 1
+        src, starts, _ = frontend_source(c)
+        out = C.run_lines([har], [src.encode().hex()], case_timeout=30)[0]
+        got, lower, panic, other = canon_impl(c, out, starts, discr)
+        print("front end now: %s lowering=%s other=%s panic=%s" % (got, lower, other, panic))
+        impl_accepts = got == "OK:" and not lower and not other
+        spec_accepts = m["spec"] == "1" and not lowering_expect(c) and not any(a[0] == "NT" for a in c["arms"])
+        bad = got in ("CRASH", "DIED") or impl_accepts != spec_accepts
+        print("replayed: %s" % ("property still fails on this input" if bad else "property holds on this input"))
+        return 1 if bad else 0
+    if r.get("stream") == "e2e":
+        ok, _, capy = cargotools.build_capy()
+        if not ok:
+            print("capy does not build")
+            return 1
+        if discr and any(d > 255 for d in discr):
+            c["_noref"] = True
+        src, refs = e2e_program([(c, 0)])
+        res = build_and_run((capy, src))
+        if res.get("build_failed"):
+            print("capy build failed: %s" % res["output"])
+            return 1
+        parts = res["stdout"].split("|")[0].split(";")
+        bad = False
+        for j, o in enumerate(m["sdisp"].split(",")):
+            exp = expected_output(c, o, j, refs[0])
+            got = parts[j] if j < len(parts) else "<missing>"
+            print("member %d: printed %r, specification %r" % (j, got, exp))
+            bad |= not same(got, exp)
+        print("replayed: %s" % ("property still fails on this input" if bad else "property holds on this input"))
+        return 1 if bad else 0
     return 0
